@@ -334,6 +334,22 @@ func main() {
 			probeValues(r)
 		case "backlog":
 			runBacklog(r, c, tmo)
+		case "reuse", "nest", "sizes":
+			for i := 0; i < 10 && !r.Failed(); i++ { // free-running for several workers: repeat until it shows
+				r.Case()
+				var fs []fail
+				switch c.Kind {
+				case "reuse":
+					fs = runReuse(c, tmo)
+				case "nest":
+					fs = runNest(c, tmo)
+				default:
+					fs = runSizes(c, tmo)
+				}
+				for _, f := range fs {
+					r.Fail(f.key, f.what, c)
+				}
+			}
 		default:
 			runStress(r, c, tmo)
 		}
@@ -343,6 +359,12 @@ func main() {
 	probe(r)
 	if panicOK {
 		probeValues(r) // awkward panic values and error values, in a child process of their own
+	}
+	// every tier: one task object submitted again and again, tasks submitting tasks, constructors and sizes (diversity.go)
+	reuseLeg(r, tmo)
+	if !r.Failed() {
+		nestLeg(r, tmo)
+		sizesLeg(r, tmo)
 	}
 	if r.Search {
 		searchLegs(r, tmo)
